@@ -506,7 +506,7 @@ def _cmp_shapely(inp, io, mo):
 
 
 def _post(ctx, inp, r):
-    return ctx.model("shapely_post", {"g": inp["g"], "tb": inp["tb"], "fb": inp["fb"], "r": r, "tol": TOL})["val"]
+    return ctx.model("shapely_post", {"g": inp["g"], "tb": inp["tb"], "fb": inp["fb"], "r": r, "tol": TOL, "mu": END_MARGIN})["val"]
 
 
 def _holds_closed(ctx, inp, io):
@@ -558,6 +558,7 @@ def _has_reversal(gj):
 
 
 OFFCAP_NOISE = Fraction(1, 10 ** 5)    # GEOS's offset curves carry noise of ~1e-6 of the distance (its vertex snapping factor)
+END_MARGIN = "1/100"                   # an open line end this close (in buffers) to a side's extreme puts its round cap there
 
 
 def _holds_shapely(ctx, inp, io):
@@ -583,7 +584,7 @@ def _holds_shapely(ctx, inp, io):
         return f"result does not contain the original; uncovered={unc:.3e} buffer widths; {facts}"
     if not p.get("post"):
         sf = max(float(frac(x)) for x in p["shortfall"])
-        # sides whose extreme is attained off the ends of open lines (no round cap there): shortfall beyond the slack
+        # sides whose extreme no end of an open line attains or comes near (no round cap there): shortfall beyond the slack
         osf = max([float(frac(x)) for x, off in zip(p["shortfall_net"], p["offcap"]) if off] + [0.0])
         return (f"bounds of the result do not extend the original's by the buffers; max_shortfall={sf:.6e} "
                 f"offcap_shortfall={osf:.6e}; {facts}")
@@ -683,7 +684,7 @@ def _axis_probes(ctx, inp, obs):
     if tb is None:
         return None
     T, B = tb
-    off = ctx.model("offcap", {"g": inp["g"]})["val"]["offcap"]
+    off = ctx.model("offcap", {"g": inp["g"], "tb": inp["tb"], "fb": inp["fb"], "mu": END_MARGIN})["val"]["offcap"]
     v = shapely.get_coordinates(T)
     if len(v) == 0 or B.is_empty:
         return None
@@ -1019,6 +1020,11 @@ def _signature_obligation(ctx):
     try:
         params = list(inspect.signature(fn).parameters.values())
         P = inspect.Parameter
+        if any(q.kind == P.VAR_POSITIONAL for q in params):
+            # a generic wrapper (`*args, **kwargs`): there is no table to read; how the buffers bind is then judged by the
+            # call-shape correspondence alone (every shape against `boundBuffers bufferSig`)
+            ctx.tally("call_signature:opaque-wrapper")
+            return
         first = params[0]
         rest = [q for q in params[1:] if q.kind in (P.POSITIONAL_ONLY, P.POSITIONAL_OR_KEYWORD)]
         kwonly = [q.name for q in params if q.kind == P.KEYWORD_ONLY]
